@@ -682,8 +682,12 @@ struct Jobs {
     });
     // warm-up: one fault-free run without allocation points, so that function-local statics of the code under
     // test, boost and libstdc++ are initialised before any run can pre-empt a task inside such an initialiser
+    // (the warm-up is the only run that is not isolated in a forked child: two single-threaded processes one after the
+    // other, so that code under test which has lost a lock cannot corrupt the worker process before the first real run)
     Plan w = generate(12345, 0, "quick");
     w.kills.clear(); w.alloc_stride = 0; w.short_write = w.short_read = 0; w.enumerate = false;
+    { ProcSpec a; a.threads = 1; a.cache = 2; ProcSpec b = a; b.restart_failed = true; b.start = ST_AFTER_END; b.start_ref = 0; w.procs.clear(); w.procs.push_back(a); w.procs.push_back(b); }
+    w.structured = true; w.fail_rate = 0.4;
     (void)execute_one(w, sim::SchedSpec());
   }
 
